@@ -348,11 +348,7 @@ class Gen:
                                      "file": self.cur_file})
             is_macro = True
         elif o["macros"] and self.macro_stack and not self.in_fill and \
-                not self.in_translate and \
                 not in_switch and fill_slot is None and ch.coin(0.45):
-            # (not inside a translation block: what a filled slot emits
-            # there does not end up in the message - a METAL/i18n matter
-            # outside the properties checked with this generator)
             self.nslot += 1
             el["define_slot"] = "s%d" % self.nslot
             self.macro_stack[-1]["slots"].append(el["define_slot"])
